@@ -212,11 +212,29 @@ ref_constraint(const struct rspec *r, RegisterValueU v)
 
 /* ---- callbacks for callback-backed areas ------------------------------------ */
 
+/* Which area of the table under test does the descriptor handed to an accessor
+ * describe?  The table's own descriptor is recognised by its place in the
+ * array.  A library may just as well hand the accessor a COPY of the
+ * descriptor (a snapshot on its stack): such a copy is identified by the
+ * description fields the accessor is entitled to read -- its base and size are
+ * looked up in the table spec.  -1: describes no area of the table. */
+static inline int
+rt_cb_area_index(const RegisterArea *a)
+{
+    const uintptr_t p = (uintptr_t)a, lo = (uintptr_t)g_tab->areas;
+    if (p >= lo && p < lo + (uintptr_t)g_tab->s.na * sizeof(RegisterArea) && (p - lo) % sizeof(RegisterArea) == 0)
+        return (int)((p - lo) / sizeof(RegisterArea));
+    for (int i = 0; i < g_tab->s.na; ++i)
+        if (g_tab->s.a[i].base == a->base && g_tab->s.a[i].size == a->size)
+            return i;
+    return -1;
+}
+
 static RegisterAccess
 rt_cb_read(const RegisterArea *a, RegisterAtom *dest, RegisterOffset off, RegisterOffset n)
 {
     RegisterAccess rv = REG_ACCESS_RESULT_INIT;
-    const int i = (int)(a - g_tab->areas);
+    const int i = rt_cb_area_index(a);
     if (g_tab->cb_fail_read_at >= 0 && g_tab->cb_reads == g_tab->cb_fail_read_at) {
         g_tab->cb_reads++;
         rv.code = REG_ACCESS_IO_ERROR;
@@ -236,7 +254,7 @@ static RegisterAccess
 rt_cb_write(RegisterArea *a, const RegisterAtom *src, RegisterOffset off, RegisterOffset n)
 {
     RegisterAccess rv = REG_ACCESS_RESULT_INIT;
-    const int i = (int)(a - g_tab->areas);
+    const int i = rt_cb_area_index(a);
     if (g_tab->cb_fail_write_at >= 0 && g_tab->cb_writes == g_tab->cb_fail_write_at) {
         g_tab->cb_writes++;
         rv.code = REG_ACCESS_IO_ERROR;
@@ -416,20 +434,52 @@ tab_fault_reached(const struct tab *tb)
         || (tb->cb_fail_write_at >= 0 && tb->cb_writes > tb->cb_fail_write_at);
 }
 
-/* public probe (zero-length block read at the first area's base): does the
- * table answer as one that is out of service?  No statement mentions driver
- * I/O errors: a library that takes the table out of service after an area
- * callback answered IO_ERROR (fail-safe latch) keeps C01/C02/C05 true, so a
+/* public probe: does the table answer as one that is (wholly or partly) out of
+ * service?  No statement mentions driver I/O errors: a library that takes the
+ * table -- or only the area whose callback failed -- out of service after an
+ * area callback answered IO_ERROR (fail-safe latch, whatever code it answers
+ * with from then on: UNINITIALISED, IO_ERROR, ...) keeps C01/C02/C05 true, so a
  * history whose injected fault was reached is only continued when this probe
- * says the table is still in service.  Call it with the faults disarmed. */
+ * says the table is still in service.  Probe: a zero-length block read at the
+ * first area's base and a full-extent block read of every area (base_i,
+ * size_i) into a scratch block; a read of mapped words succeeds on a table in
+ * service (C03), so ANY non-success answer means "out of service".  The probe
+ * reads through the area callbacks: it runs with the faults disarmed and puts
+ * the callback counters, the fault arming and the bounds flag back as they
+ * were, so nothing of it is counted. */
 static inline bool
 tab_out_of_service(struct tab *tb)
 {
+    struct tab *const g_save = g_tab;
+    const long reads = tb->cb_reads, writes = tb->cb_writes;
+    const long fr = tb->cb_fail_read_at, fw = tb->cb_fail_write_at;
+    const int oob = tb->cb_oob;
+    bool out = false;
+    g_tab = tb;
+    tb->cb_fail_read_at = tb->cb_fail_write_at = -1;
     RegisterAtom *buf = mc_exact(sizeof(RegisterAtom));
     buf[0] = 0;
-    const RegisterAccess a = register_block_read(&tb->t, tb->s.na > 0 ? tb->s.a[0].base : 0, 0, buf);
+    RegisterAccess a = register_block_read(&tb->t, tb->s.na > 0 ? tb->s.a[0].base : 0, 0, buf);
     free(buf);
-    return a.code == REG_ACCESS_UNINITIALISED;
+    if (a.code != REG_ACCESS_SUCCESS)
+        out = true;
+    for (int i = 0; i < tb->s.na && !out; ++i) {
+        if (tb->s.a[i].size == 0)
+            continue;
+        buf = mc_exact(tb->s.a[i].size * sizeof(RegisterAtom));
+        memset(buf, 0, tb->s.a[i].size * sizeof(RegisterAtom));
+        a = register_block_read(&tb->t, tb->s.a[i].base, tb->s.a[i].size, buf);
+        free(buf);
+        if (a.code != REG_ACCESS_SUCCESS)
+            out = true;
+    }
+    tb->cb_reads = reads;
+    tb->cb_writes = writes;
+    tb->cb_fail_read_at = fr;
+    tb->cb_fail_write_at = fw;
+    tb->cb_oob = oob;
+    g_tab = g_save;
+    return out;
 }
 
 /* an address as text: decimal, hexadecimal from 2^24 on (tables near the top
